@@ -201,8 +201,15 @@ func histString(h []int) string {
 
 // runHistory replays a history on a fresh run; it reports the first violation.
 func runHistory(c *core.Ctx, api int, h []int) (*streamRun, bool) {
+	return runHistoryEnv(c, api, h, false)
+}
+
+// runHistoryEnv: with eofAtEnd the reader returns io.EOF together with the last bytes of the stream (in the
+// Read call that delivers them), which only the last operation of the history can observe.
+func runHistoryEnv(c *core.Ctx, api int, h []int, eofAtEnd bool) (*streamRun, bool) {
 	r := newStreamRun(api)
 	for i, op := range h {
+		r.rd.EOFWithData = eofAtEnd && i == len(h)-1 && op == opRead
 		if st, k, m := r.step(op); st != "" {
 			shape := "Encoder/Decoder"
 			if api == 1 {
@@ -308,6 +315,9 @@ func init() {
 								if _, ok := runHistory(c, api, h); ok {
 									c.Outcome("ok-long")
 								}
+								if _, ok := runHistoryEnv(c, api, h, true); ok {
+									c.Outcome("ok-long-eof-with-last-bytes")
+								}
 							}
 						}
 					}
@@ -335,7 +345,7 @@ func init() {
 								r.nm[k2] = v2
 							}
 						}
-						n := tierPick(tier, 1500, 6000)
+						n := tierPick(tier, 12000, 70000)
 						bad := ""
 						for i := 0; i < n && bad == ""; i++ {
 							var v interface{}
@@ -359,14 +369,14 @@ func init() {
 							if st, k, m := r.step(opRead); st != "" {
 								bad = fmt.Sprintf("value #%d of the stream: %s/%s %s", i, st, k, m)
 							}
-							if i%4 == 3 {
+							if i%4 == 3 && (i < 1500 || i%64 == 63) {
 								runtime.GC()
 							}
 						}
 						c.Res.States++
 						c.Res.Transitions += int64(2 * n)
 						if bad != "" {
-							c.Report(&core.Violation{Stage: "gc-stream", Kind: "mismatch", Shape: kind, Message: msgStrict(bad), Case: fmt.Sprintf("stream of %d temporary %s values, runtime.GC() after every 4th write", n, kind)})
+							c.Report(&core.Violation{Stage: "gc-stream", Kind: "mismatch", Shape: kind, Message: msgStrict(bad), Case: fmt.Sprintf("stream of %d temporary %s values, runtime.GC() after every 4th write (every 64th after the first 1500)", n, kind)})
 						} else {
 							c.Outcome("gc-stream-ok")
 						}
